@@ -1,5 +1,6 @@
 import RgVerif.Model.Sx
 import RgVerif.Model.Gitignore
+import RgVerif.Model.GitignoreRead
 import RgVerif.Spec.GitSpec
 import RgVerif.Props.C04
 namespace RgVerif.Driver.C04
@@ -33,14 +34,24 @@ def showVerdict (globs : List GiGlob) : Verdict → String
     | some g => s!"w:{cpHex g.original}:{cpHex g.actual}"
     | none => "w:?"
 
-/-- `(ign (d comphex…) (lines (l …) …))` entries → lookup function -/
-def parseIgn (xs : List Sx) : Option (List (List Bytes × List (List Nat))) :=
+/-- `(ign (d comphex…) (lines (l …) …))` or `(ign (d comphex…) (bytes hex))` entries → per directory the lines
+ripgrep's reader hands to `add_line` (code points) and the lines git's reader produces (byte strings).  With
+`lines` both sides get the same lines (the spec gets their UTF-8 bytes); with `bytes` each side reads the file
+its own way (`Model.rgReadLines` = `GitignoreBuilder::add`, `GitSpec.readLines` = `add_patterns_from_buffer`). -/
+def parseIgn2 (xs : List Sx) : Option (List (List Bytes × List (List Nat) × List (List Nat))) :=
   xs.mapM fun x =>
     match x with
     | .list [.atom "ign", .list (.atom "d" :: comps), .list (.atom "lines" :: ls)] => do
       let comps ← comps.mapM Sx.bytes?
       let ls ← ls.mapM parseLineSx
-      pure (comps, ls)
+      pure (comps, ls, ls.map utf8Str)
+    | .list [.atom "ign", .list (.atom "d" :: comps), .list [.atom "bytes", h]] => do
+      let comps ← comps.mapM Sx.bytes?
+      let content ← h.bytes?
+      pure (comps, rgReadLines content, GitSpec.readLines content)
+    | .list [.atom "ign", .list (.atom "d" :: comps), .list [.atom "bytes"]] => do
+      let comps ← comps.mapM Sx.bytes?
+      pure (comps, [], [])
     | _ => none
 
 def lookupIgn (tab : List (List Bytes × List (List Nat))) (d : List Bytes) : List (List Nat) :=
@@ -62,6 +73,17 @@ def handle (cmd : String) (args : List Sx) : String :=
         | some p => s!"pat:{b01 p.negative}{b01 p.mustBeDir}{b01 p.noDir}:{cpHex p.text}"
       rg ++ " " ++ git ++ (if Props.C04.okFileLine ci l then " ok1" else " ok0")
     | _, _ => "bad-op"
+  | "c04.hit", [ci, l, .list (d :: comps)] =>
+    -- what ONE line contributes for one relative path, on ripgrep's side and on git's side (the two sides of
+    -- `LineAgree`): `-` no hit, `i` ignore, `w` whitelist
+    match ci.bool?, parseLineSx l, d.bool?, comps.mapM Sx.bytes? with
+    | some ci, some l, some d, some comps =>
+      let sh (o : Option Bool) : String := match o with
+        | none => "-"
+        | some true => "i"
+        | some false => "w"
+      sh (mHit ci l (joinPath comps) d) ++ sh (sHit ci l comps d)
+    | _, _, _, _ => "bad-op"
   | "c04.file", [ci, root, .list (.atom "lines" :: ls), .list (.atom "paths" :: ps)] =>
     match ci.bool?, root.bytes?, ls.mapM parseLineSx,
           ps.mapM (fun p => match p with
@@ -73,17 +95,19 @@ def handle (cmd : String) (args : List Sx) : String :=
                                              ++ "," ++ showVerdict globs (matched root globs p d))
     | _, _, _, _ => "bad-op"
   | "c04.tree", [ci, .list (.atom "igns" :: igs), .list (.atom "paths" :: ps)] =>
-    match ci.bool?, parseIgn igs,
+    match ci.bool?, parseIgn2 igs,
           ps.mapM (fun p => match p with
             | .list (d :: comps) => do pure ((← d.bool?), (← comps.mapM Sx.bytes?))
             | _ => none) with
     | some ci, some tab, some ps =>
-      let ign := lookupIgn tab
-      -- the guard of theorem C04_partial, evaluated with the theorem's own predicate
-      let guard := tab.all fun e => e.2.all (Props.C04.okFileLine ci)
+      let ignM := lookupIgn (tab.map fun e => (e.1, e.2.1))
+      let ignS := lookupIgn (tab.map fun e => (e.1, e.2.2))
+      -- the guard of theorem C04_partial, evaluated with the theorem's own predicate; the theorem speaks about ONE
+      -- list of lines per directory, so both readers must have produced the same lines
+      let guard := tab.all fun e => e.2.1 == e.2.2 && e.2.1.all (Props.C04.okFileLine ci)
       (if guard then "g1 " else "g0 ") ++ String.ofList (ps.flatMap fun (d, comps) =>
-        [if rgSkipped ci ign comps d then '1' else '0',
-         if GitSpec.gitIgnored ci ign comps d then '1' else '0'])
+        [if rgSkipped ci ignM comps d then '1' else '0',
+         if GitSpec.gitIgnored ci ignS comps d then '1' else '0'])
     | _, _, _ => "bad-op"
   | _, _ => "bad-op"
 
